@@ -183,6 +183,8 @@ func (m *Sign1Message[T]) UnmarshalCBOR(data []byte) error {
 		return err
 	}
 
+	var zero T
+	m.Payload = zero // a reused message must not keep the previous payload
 	if len(mm.Payload) > 0 {
 		switch any(m.Payload).(type) {
 		case []byte:
